@@ -18,7 +18,7 @@ import (
 // Obs is what a user agent / client can observe of one endpoint round trip.
 type Obs struct {
 	Status   int               `json:"status"`
-	Err      string            `json:"err,omitempty"`      // RFC error code as seen by the caller
+	Err      string            `json:"err,omitempty"` // RFC error code as seen by the caller
 	Desc     string            `json:"desc,omitempty"`
 	JSON     map[string]any    `json:"json,omitempty"`
 	Location string            `json:"location,omitempty"`
@@ -194,11 +194,13 @@ func postReq(path string, form url.Values, a Auth) *http.Request {
 
 // TokenOpts tunes what the integrator code around the library does.
 type TokenOpts struct {
-	Session   *Sess
-	GrantAll  bool // grant every requested scope/audience (client_credentials, password, jwt-bearer)
+	Session  *Sess
+	GrantAll bool // grant every requested scope/audience (client_credentials, password, jwt-bearer)
 }
 
-func (w *World) Token(form url.Values, a Auth) *Obs { return w.TokenWith(form, a, TokenOpts{GrantAll: true}) }
+func (w *World) Token(form url.Values, a Auth) *Obs {
+	return w.TokenWith(form, a, TokenOpts{GrantAll: true})
+}
 
 func (w *World) TokenWith(form url.Values, a Auth, opt TokenOpts) *Obs {
 	req := postReq("/token", form, a)
@@ -248,11 +250,11 @@ func errString(err error) string {
 // ---- authorization endpoint
 
 type AuthzOpts struct {
-	Subject      string
-	GrantScopes  func(requested []string) []string // nil => all requested
-	GrantAud     func(requested []string) []string // nil => all requested
-	Session      *Sess
-	Deny         bool // resource owner denies: integrator writes access_denied
+	Subject     string
+	GrantScopes func(requested []string) []string // nil => all requested
+	GrantAud    func(requested []string) []string // nil => all requested
+	Session     *Sess
+	Deny        bool // resource owner denies: integrator writes access_denied
 }
 
 func (w *World) Authorize(params url.Values, opt AuthzOpts) *Obs {
